@@ -65,6 +65,43 @@ def run_families(ctx, prop, families=None, judge_parallel=6, sub=SUB, judge=JUDG
     return recs
 
 
+# packet-header kinds under the construction judge (C06, C13): PktGen.tla family -> (quick stride, thorough stride, expected minimum at stride 1)
+PACKETS = {"VLAN": (1021, 251, 65536), "ETH": (1, 1, 40), "IP4": (1021, 251, 66000), "IP6": (211, 31, 1500), "FRAG": (509, 61, 16384), "TCP": (7, 1, 1024),
+           "L4": (1, 1, 20), "IGMP": (1, 1, 80), "EXT": (1, 1, 100), "DL": (1, 1, 50), "DC": (1, 1, 40)}
+
+
+def _pkt_observe(r, seed):
+    parts, top = list(r["rt"][:-1]), r["top"]
+    watch = [o for p in parts for o in (["len", p], ["marshal", p])]
+    rev = [o for p in reversed(parts) for o in (["marshal", p], ["len", p])]
+    L, M = ["len", top], ["marshal", top]
+    h = (len(r["ops"]) + 3 * len(parts) + seed) % 6
+    obs = [watch + [L, M, L, M], [M, L, M, L] + watch, [L, L, M, M] + rev, rev + [M, M, L, L], [M] + watch + [L, M, L], [L] + rev + [M, L, M] + watch][h]
+    out = {"k": "build", "id": r["id"], "fam": "PK-" + r["fam"], "top": top, "ops": r["ops"], "observe": obs, "kids": parts, "trees": r["trees"]}
+    return out
+
+
+def run_packets(ctx, prop, families=None):
+    """Packet-header kinds (protocol package) built through the API, observed (size / encoding, repeatedly, in varying order) and judged by
+    OFTrace.tla with the same predicates as the OpenFlow kinds; EncPkt of PktWire.tla is the grammar."""
+    recs, counts = [], {}
+    for fam, (qs, ts, emin) in PACKETS.items():
+        if families and fam not in families:
+            continue
+        stride = qs if ctx.quick() else ts
+        cfgtxt = "SPECIFICATION Spec\nCONSTANTS\n  Family = \"%s\"\n  Stride = %d\n  Phase = %d\n" % (fam, stride, ctx.seed % stride)
+        p, n = pipeline.gen_tlc(ctx, "PktGen", cfgtxt, "PktGen[%s]" % fam, "PK-" + fam, expect_min=max(1, emin // (2 * stride)), workers=8, xmx="8g")
+        rows = [_pkt_observe(r, ctx.seed) for r in vlib.read_ndjson(p)]
+        vlib.write_ndjson(p, rows)
+        counts["PK-" + fam] = len(rows)
+        recs += pipeline.run_family(ctx, SUB, p, JUDGE, constants="  Prop = \"%s\"\n" % prop, max_lines=4000, judge_workers=2)[1]
+    fams = dict(ctx.extra.get("families", {}))
+    fams.update(counts)
+    ctx.extra["families"] = fams
+    ctx.extra["distinct_nontrivial"] = sum(fams.values())
+    return recs
+
+
 def settle(ctx, prop, recs):
     return pipeline.settle(ctx, SUB, JUDGE, "  Prop = \"%s\"\n" % prop, recs,
                            sig=lambda r: "%s|%s" % (r.get("fam", "?"), r.get("pred", "?")), max_report=12)
